@@ -169,8 +169,14 @@ def check_decls(run, decls, r, variant="parsed"):
                     run.sample({"schema": text, "binding": S.impl_name(d), "unroll_arrays": unroll, "layout": fresh[bi]})
         if not fresh:
             continue
-        # (c) history on one long-lived encoder
-        enc = encoder(fcp, unroll)
+        # (c) history on one long-lived encoder, whose context object is also the base of a sibling
+        # context with the opposite unroll setting (deriving a context must not change the original)
+        from fcp.encoding import make_encoder, PackedEncoderContext
+
+        base_ctx = PackedEncoderContext(unroll_arrays=unroll)
+        enc = make_encoder("packed", fcp, base_ctx)
+        sibling = make_encoder("packed", fcp, base_ctx.with_unroll_arrays(not unroll))
+        run.count("shared_context_histories")
         hist = []
         returned = []
         keys = sorted(fresh)
@@ -200,6 +206,11 @@ def check_decls(run, decls, r, variant="parsed"):
                 case["fresh"] = fresh[bi]
                 run.violation("layout of %s depends on earlier generate() calls on the same encoder" % hist[-1], case)
                 return
+            if step % 4 == 1:
+                try:
+                    sibling.generate(impl)  # a sibling encoder with the derived context works in between
+                except Exception:
+                    pass
             returned.append((bi, out))
             for pbi, pout in returned:
                 if snap(pout) != fresh[pbi]:
